@@ -8,7 +8,7 @@
 (*   strict  (cfg WireTrace_strict): the record is what Wire.tla computes   *)
 (*           (layout tables as oracle for the bytes; either setting of the  *)
 (*           PlaceholderTypedAsCookie switch explains an NTS encoding)      *)
-(* Record kinds (field k): lay, layb, lvm, nts, sck, eck, crypt.            *)
+(* Record kinds (field k): lay, layb, layp, lvm, nts, sck, eck, crypt.      *)
 (***************************************************************************)
 EXTENDS Integers, Sequences, FiniteSets, TLC, Json
 
@@ -48,6 +48,9 @@ RLayRoundTrip == Is("lay") =>
 RLayReencode == Is("lay") => \A i \in 1 .. NVals : Bit(R.fl[i], 0) => Bit(R.fl[i], 3)
 \* a valid encoding is reproduced by decode + encode
 RLaybReencode == Is("layb") => (WF!ValidEnc(R.m, R.b) => R.err = "nil" /\ R.reenc = R.b)
+\* decoding into a destination that holds a previously decoded value returns the
+\* value that was encoded (the decoded value is a function of the bytes only)
+RLaypRoundTrip == Is("layp") => R.err = "nil" /\ R.dec = R.vals /\ R.dec0 = R.vals
 \* leap/version/mode accessors agree with the first byte of the encoding
 Agree(x) == /\ x.li \in 0 .. 3 /\ x.vn \in 0 .. 7 /\ x.mode \in 0 .. 7
             /\ x.li * 64 + x.vn * 8 + x.mode = x.b0
@@ -83,6 +86,9 @@ SLayBytes == Is("lay") =>
          /\ R.declen[i] = WF!DeclLen(R.m, IF R.f = "FlagField" /\ WF!HasCond(R.m) THEN Val(i)[4] % 2 = 1 ELSE R.ssds)
 SLayFull == Is("lay") => (R.canon0 => R.enc0 = WF!EncodeLay(R.m, ValsOf(R.m, R.vals0)))
 SLayb == Is("layb") => (WF!ValidEnc(R.m, R.b) => ValsOf(R.m, R.dec) = WF!DecodeLay(R.m, R.b))
+SLayp == (Is("layp") /\ R.err = "nil") =>
+   /\ R.enc = WF!EncodeLay(R.m, ValsOf(R.m, R.vals))
+   /\ ValsOf(R.m, R.dec) = WF!DecodeLayInto(R.m, ValsOf(R.m, R.prev), R.enc)
 SLvm == Is("lvm") => /\ R.li = WF!Li(R.x) /\ R.vn = WF!Vn(R.x) /\ R.mode = WF!Mode(R.x)
                      /\ \A i \in DOMAIN R.sets : R.sets[i].b0 = WF!LvmSet(R.sets[i].op, R.x, R.sets[i].a)
 \* the nonce and the ciphertext are random: compare everything before them and the length
